@@ -41,9 +41,18 @@ structure InvS (d : Db) : Prop where
 structure Inv (d : Db) : Prop extends InvS d where
   appInv : ∀ a, d.app = some a → AppInv d a
 
-/-- The newest physical sample of every head series is not tombstoned (broken only by `delete`). -/
-def LastVis (d : Db) : Prop :=
-  ∀ s ∈ d.series, ∀ l, s.phys.getLast? = some l → visible s.tombs l = true
+/-- The pending batch of the open appender. -/
+def pendingOf (d : Db) : List (Nat × Smp) :=
+  match d.app with
+  | some a => a.batch
+  | none => []
+
+/-- The newest physical sample of every head series is not tombstoned, or else every pending batch
+    element of that series is strictly newer (so the commit-time duplicate rule never meets a
+    hidden sample). Trivial while no appender is open. -/
+def LastOk (d : Db) : Prop :=
+  ∀ s ∈ d.series, ∀ l, s.phys.getLast? = some l →
+    visible s.tombs l = true ∨ ∀ p ∈ pendingOf d, p.1 = s.idx → l.t < p.2.t
 
 /-- Simulation: the visible samples of the mechanism state are exactly the reference store. -/
 structure Sim (d : Db) (r : Ref) : Prop where
